@@ -203,6 +203,8 @@ func (s *setupWorker) setup(ctx context.Context, m transport.Metadata) error {
 	}
 	L(ctx).Debug("session metadata created")
 	s.local.Create(session.ID(), session)
+	// from now on the client's keep-alive applies, not the CONNECT timeout
+	session.ExtendDeadline()
 	worker := &connectionWorker{
 		decoder: decoder.New(),
 		manager: s.manager,
